@@ -33,6 +33,8 @@ def get_annualized_variable(
             for key, formula in variable.formulas.items()
         },
     )
+    # `clone()` rebuilds from the class: carry the instance state over.
+    new_variable.is_neutralized = variable.is_neutralized
 
     return new_variable
 
